@@ -75,6 +75,7 @@ POOL = {
     'A-ph-explicit': dict(g=G_A, o={'maybe_placeholders': True}),   # the default given explicitly: same parser as A
     'A-noflags': dict(g=G_A, o={'g_regex_flags': 0}),
     'A-start-list': dict(g=G_A, o={'start': ['start']}),
+    'F': dict(g='start: x+\nx: (KW | NAME) [NAME] "!" | "(" x ")" -> grp\nother: NAME+\nKW: "a"i\nNAME: /[a-z]+/s\n%ignore " "\n', o={}),      # flag sets decide whether the keyword folds into NAME
     'BIG': dict(g=_big(), o={}),
 }
 OPTION_DEFAULTS = {'maybe_placeholders': True, 'keep_all_tokens': False, 'propagate_positions': False, 'lexer': 'contextual', 'start': ['start'],
